@@ -351,3 +351,63 @@ pub fn strip_time(s: &str) -> String {
     }
     out
 }
+
+/// Canonical observation of a run (wall-clock text and scratch paths removed).
+pub fn observe(r: &RunResult, root: &Path) -> serde_json::Value {
+    use serde_json::json;
+    let rs = root.display().to_string();
+    let clean = |s: &str| strip_time(s).replace(&rs, "<ROOT>");
+    let mut files = serde_json::Map::new();
+    for (k, v) in &r.files {
+        let s = String::from_utf8_lossy(v);
+        // row order of the two hash-map dumps is unspecified: compare as sorted rows
+        let text = if k.starts_with("unspent") || k.starts_with("balances") {
+            let mut lines: Vec<&str> = s.lines().collect();
+            if lines.len() > 1 {
+                lines[1..].sort();
+            }
+            lines.join("\n")
+        } else {
+            s.into_owned()
+        };
+        let text = if text.len() > 20000 { format!("{}…[{} bytes, sha256 {}]", &text[..2000], text.len(), crate::ser::hex(&crate::hash::sha256(text.as_bytes()))) } else { text };
+        files.insert(k.clone(), json!(text));
+    }
+    let mut out = clean(&r.stdout);
+    if out.contains("Transaction Types:") {
+        // type entries (two lines each) come from a HashMap: sort them
+        let lines: Vec<&str> = out.lines().collect();
+        let mut res: Vec<String> = Vec::new();
+        let mut i = 0;
+        while i < lines.len() {
+            res.push(lines[i].to_string());
+            if lines[i].trim_end().ends_with("Transaction Types:") {
+                i += 1;
+                let mut entries: Vec<(String, String)> = Vec::new();
+                while i < lines.len() {
+                    if lines[i].starts_with("   -> ") && i + 1 < lines.len() && lines[i + 1].trim_start().starts_with("first seen in block") {
+                        entries.push((lines[i].to_string(), lines[i + 1].to_string()));
+                        i += 2;
+                    } else if lines[i].is_empty() {
+                        i += 1;
+                    } else {
+                        break;
+                    }
+                }
+                entries.sort();
+                for (a, b) in entries {
+                    res.push(a);
+                    res.push(b);
+                    res.push(String::new());
+                }
+                continue;
+            }
+            i += 1;
+        }
+        out = res.join("\n");
+        out.push('\n');
+    }
+    let trunc = |s: String| if s.len() > 20000 { format!("{}…[{} bytes]", &s[..2000], s.len()) } else { s };
+    json!({"code": r.code, "signal": r.signal, "stdout": trunc(out), "stderr": trunc(clean(&r.stderr)), "files": files})
+}
+
